@@ -24,6 +24,8 @@ type Event struct {
 	Marker string // for writes to the marker file: the text written
 	Off    int64  // pwrite64 offset
 	Len    int64
+	Data   string // pwrite64 payload (complete only when strace ran with a large enough -s)
+	Trunc  bool   // payload was abbreviated by strace
 	Raw    string
 }
 
@@ -156,13 +158,17 @@ func parseCall(s string) *Event {
 		if fm == nil {
 			return nil
 		}
-		ev.Path = fm[1]
+		ev.Path = unquote(fm[1])
 		if ev.Name == "write" {
 			if q := quotedRe.FindStringSubmatch(args); q != nil {
 				ev.Marker = strings.TrimSpace(unquote(q[1]))
 			}
 		}
 		if ev.Name == "pwrite64" {
+			if q := quotedRe.FindStringSubmatch(args); q != nil {
+				ev.Data = unquote(q[1])
+				ev.Trunc = strings.Contains(args, q[0]+"...")
+			}
 			f := strings.Split(args, ",")
 			if len(f) >= 2 {
 				ev.Off, _ = strconv.ParseInt(strings.TrimSpace(f[len(f)-1]), 10, 64)
